@@ -1,5 +1,5 @@
 //! C18 — unsafe transport code stays inside its buffers for every message shape.
-//! Runs the message shapes of C01, C04, C05, C12, C13, C15 and C16 plus platform-level region
+//! Runs the message shapes of C01, C02, C04, C05, C09, C12, C13, C15 and C16 plus platform-level region
 //! probes on the AddressSanitizer build (std's unsafe-precondition checks enabled), with every
 //! receive buffer filled with a canary before the kernel writes into it and every buffer handed
 //! to the kernel checked against ASan's shadow memory at the seam.
@@ -8,7 +8,7 @@ use super::*;
 pub struct C18S;
 pub static C18: C18S = C18S;
 
-const SUBS: [&str; 8] = ["C01", "C04", "C05", "C12", "C13", "C15", "C16", "platform"];
+const SUBS: [&str; 10] = ["C01", "C04", "C05", "C12", "C13", "C15", "C16", "platform", "C02", "C09"];
 
 #[cfg(not(feature = "inproc"))]
 fn platform_case(p: &Value, out: &mut Outcome) {
@@ -112,12 +112,12 @@ impl Scenario for C18S {
     }
     fn count(&self, tier: Tier, _variant: &str) -> u64 {
         match tier {
-            Tier::Quick => 16_000,
+            Tier::Quick => 20_000,
             Tier::Thorough => 480_000,
         }
     }
     fn rule(&self) -> &'static str {
-        "case = one case of the C01 / C04 / C05 / C12 / C13 / C15 / C16 generators (data lengths around every buffer boundary, 0..64+ attachments, ENOBUFS retries, crashed and truncated transfers, corrupt payloads) or a platform-level case (regions of length 0, 1, odd, page +-1 created, cloned, sent over a platform channel next to 0..62 channels and a data part around the fragment boundaries), executed on the AddressSanitizer build with std's unsafe-precondition checks on, canary-filled receive buffers and shadow-memory checks of every buffer handed to the kernel; non-trivial = every case (all exercise unsafe transport code); distinct = distinct (sub-case, schedule hash)"
+        "case = one case of the C01 / C02 / C04 / C05 / C09 / C12 / C13 / C15 / C16 generators (data lengths around every buffer boundary, 0..64+ attachments, ENOBUFS retries, crashed and truncated transfers, corrupt payloads) or a platform-level case (regions of length 0, 1, odd, page +-1 created, cloned, sent over a platform channel next to 0..62 channels and a data part around the fragment boundaries), executed on the AddressSanitizer build with std's unsafe-precondition checks on, canary-filled receive buffers and shadow-memory checks of every buffer handed to the kernel; non-trivial = every case (all exercise unsafe transport code); distinct = distinct (sub-case, schedule hash)"
     }
     fn died(&self, how: &str, panics: &str) -> Option<Violation> {
         if how.starts_with("signal") || how == "exit 1" {
